@@ -23,3 +23,88 @@ package schema
 //@   props C01 C16
 //@   nopanic
 //@   ensures result == n.children
+
+// ---- the Node interface, in terms of the abstract view (consOf, jtypeOf) ----
+// ASSUMPTION (listed in the evidence): the five node classes reach these
+// methods through compiler-generated promoted-method wrappers around baseNode,
+// whose methods are verified below against the same statements.
+
+//@ interface Node.Type(self)
+//@   requires isNode(self)
+//@   pure
+//@   ensures result == jtypeOf(self)
+
+//@ interface Node.ConstraintMap(self)
+//@   requires isNode(self)
+//@   pure
+//@   ensures result == consOf(self)
+
+//@ interface Node.Constraint(self, t)
+//@   requires isNode(self) && consReady(self)
+//@   nopanic
+//@   ensures result == consOf(self).data[t]
+//@   ensures (result != nil) == hasRule(self, t)
+
+//@ interface Node.NumberOfConstraints(self)
+//@   requires isNode(self) && consReady(self)
+//@   nopanic
+//@   ensures result == len(consOf(self).order)
+
+//@ interface Node.DeleteConstraint(self, t)
+//@   requires isNode(self) && consReady(self)
+//@   nopanic
+//@   modifies consOf(self).data[*], consOf(self).order, consOf(self).order[*]
+//@   ensures consReady(self) && !hasRule(self, t)
+//@   ensures forall q constraint.Type :: q != t ==> hasRule(self, q) == old(hasRule(self, q)) && consOf(self).data[q] == old(consOf(self).data[q])
+//@   ensures len(consOf(self).order) == old(len(consOf(self).order)) - (old(hasRule(self, t)) ? 1 : 0)
+
+//@ func (baseNode).Type()
+//@   props C01 C08
+//@   nopanic
+//@   ensures result == n.jsonType
+
+//@ func (baseNode).ConstraintMap()
+//@   props C01 C08
+//@   nopanic
+//@   ensures result == n.constraints
+
+//@ func (baseNode).Constraint(t)
+//@   props C01 C08
+//@   requires n.constraints != nil ==> (n.constraints.mx.held == 0 && wfConstraints(n.constraints))
+//@   nopanic
+//@   ensures n.constraints != nil ==> result == n.constraints.data[t]
+//@   ensures n.constraints == nil ==> result == nil
+
+//@ func (baseNode).NumberOfConstraints()
+//@   props C08
+//@   requires n.constraints != nil && n.constraints.mx.held == 0 && wfConstraints(n.constraints)
+//@   nopanic
+//@   ensures result == len(n.constraints.order)
+
+//@ func (*baseNode).DeleteConstraint(t)
+//@   props C08
+//@   requires n != nil && n.constraints != nil && n.constraints.mx.held == 0 && wfConstraints(n.constraints)
+//@   nopanic
+//@   modifies n.constraints.data[*], n.constraints.order, n.constraints.order[*]
+//@   ensures n.constraints.mx.held == 0 && wfConstraints(n.constraints) && !dom(n.constraints.data, t)
+//@   ensures forall q constraint.Type :: q != t ==> dom(n.constraints.data, q) == old(dom(n.constraints.data, q)) && n.constraints.data[q] == old(n.constraints.data[q])
+//@   ensures len(n.constraints.order) == old(len(n.constraints.order)) - (old(dom(n.constraints.data, t)) ? 1 : 0)
+
+// C08: "every rule appears once"
+//@ func (*baseNode).AddConstraint(c)
+//@   props C08
+//@   requires n != nil && n.constraints != nil && n.constraints.mx.held == 0 && wfConstraints(n.constraints)
+//@   requires c != nil ==> ctypeOf(c) >= 0
+//@   maypanic
+//@   modifies n.constraints.data, n.constraints.data[*], n.constraints.order, n.constraints.order[*]
+//@   ensures panics <==> (c != nil && old(dom(n.constraints.data, ctypeOf(c))))
+//@   ensures normal && c != nil ==> dom(n.constraints.data, ctypeOf(c)) && n.constraints.data[ctypeOf(c)] == c && wfConstraints(n.constraints) && n.constraints.mx.held == 0
+//@   ensures normal && c == nil ==> n.constraints.data == old(n.constraints.data) && len(n.constraints.order) == old(len(n.constraints.order))
+
+// C01: a key is optional iff it carries optional:true
+//@ func IsOptionalNode(n)
+//@   props C01
+//@   requires isNode(n) && consReady(n)
+//@   requires hasRule(n, constraint.OptionalConstraintType) ==> typeis(consOf(n).data[constraint.OptionalConstraintType], *constraint.Optional)
+//@   nopanic
+//@   ensures result == (hasRule(n, constraint.OptionalConstraintType) && boolOf(consOf(n).data[constraint.OptionalConstraintType]))
